@@ -698,11 +698,16 @@ func parseShortTermRPS(r *bits.EBSPReader, idx, numSTRefPicSets byte, sps *SPS) 
 		}
 		if deltaIdx > idx {
 			r.SetError(fmt.Errorf("deltaIdx > idx in parseShortTermRPS"))
+			return stps
 		}
 		/* deltaRpsSign */ _ = r.Read(1)
 		/* absDeltaRpsMinus1*/ _ = r.ReadExpGolomb()
 		//deltaRps := (1 - (deltaRpsSign << 1)) * (absDeltaRpsMinus1 + 1)
 		refIdx := idx - deltaIdx
+		if int(refIdx) >= len(sps.ShortTermRefPicSets) {
+			r.SetError(fmt.Errorf("reference RPS index %d not available in parseShortTermRPS", refIdx))
+			return stps
+		}
 		numDeltaPocs := sps.ShortTermRefPicSets[refIdx].NumDeltaPocs
 		for j := byte(0); j <= numDeltaPocs; j++ {
 			usedByCurrPicFlag := r.ReadFlag()
